@@ -10,7 +10,7 @@ TRANSPARENT_CALLS = flow.VIEW_CALLS
 
 
 class Expr:
-    def __init__(self, F, f, inline_getters=True, max_depth=40):
+    def __init__(self, F, f, inline_getters=True, max_depth=200):
         self.F, self.f = F, f
         self.inline_getters = inline_getters
         self.max_depth = max_depth
